@@ -121,7 +121,8 @@ def choicesOfStream (bs : Bytes) : StreamChoices := Id.run do
 
 def choicesOf (sc : StreamChoices) : Choices :=
   { oracle := ProbOracle.float,
-    selectPrediction := fun i => if sc.pred.getD i true then Generated.PREDICTION_DIFFERENCE else Generated.PREDICTION_NONE,
+    -- ignored by `encodeGeometry`: the model computes the prediction methods from geometry and options
+    selectPrediction := fun _ => Generated.PREDICTION_DIFFERENCE,
     attScheme := fun i => sc.scheme.getD i .tagged,
     connScheme := sc.conn }
 
